@@ -600,7 +600,7 @@ class ActionTypeHint(Action):
                 if isinstance(val, (Namespace, dict)) and config_path is not None:
                     val["__path__"] = config_path
                 value[num] = val
-            except (TypeError, ValueError) as ex:
+            except (TypeError, ValueError, ArgumentError) as ex:
                 if self._is_valid_string(val):
                     value[num] = val
                 else:
